@@ -104,7 +104,9 @@ def run_property(pid, tier, seed, jobs=None, budget=None):
         ctx = mp.get_context("fork")
         # a shard that never returns (a code under test that loops or grows without bound) must not hang the check: hard deadline
         hard = float(os.environ.get("VERIF_HARD_LIMIT_S", "0")) or max(4 * budget, budget + 600)
-        with ctx.Pool(min(jobs, len(items)), initializer=_limit_memory) as pool:
+        # workers are recycled after a few shards: whatever a shard leaves behind in its process (caches of the library under test,
+        # registries) is returned to the system instead of accumulating over a long run
+        with ctx.Pool(min(jobs, len(items)), initializer=_limit_memory, maxtasksperchild=3) as pool:
             it = pool.imap_unordered(_worker, [(modname, x) for x in items], chunksize=1)
             while True:
                 try:
